@@ -34,6 +34,10 @@ CHECKS["C19"] = dict(level="model_checking", engine="tlc-trace",
    technique="PlusCal model of the Watchdog code model-checked by TLC over all signal placements; TLC-generated schedules executed on the real classes on a virtual clock through guarded yield hooks; recorded events validated against the property-level spec WatchTrace.tla",
    text="WatchdogImpl.tla mirrors the bookkeeping code statement by statement and TLC checks never-early / at-most-once / not-after-death / in-order / prompt / armed for every interleaving of the timer signal (they hold when the signal never falls inside a call, and fail in the known race otherwise). WdSched.tla generates API-call schedules with the ticks that pass at every yield point of every call; the harness interposes setitimer/getitimer/sigaction, delivers the signal exactly when the real virtual timer expires (also inside the critical section), and WatchTrace.tla -- whose guards are the property -- validates every fire / idle / check event. The weight-based watcher is validated the same way with weight as time.",
    note="Trusted: TLC, the 100-line virtual-clock harness, the yield hooks (add-only, guarded). Bounds: <= 3 watchdogs, delays <= 4 ticks, <= 7 calls, ticks only at statement boundaries. Promptness is asserted up to the ticks that elapsed inside calls. Three known findings (race when the signal is delivered inside a call).", ref="§5 C19")
+CHECKS["C12"] = dict(level="model_checking", engine="tlc-trace",
+   technique="every logged interval operation is an action of IntervalTrace.tla whose expected result is the definitional interval over extended rationals; equality for exact bound types, BigInt enclosure for integer/double bounds",
+   text="Seeded operand pairs over all sign/shape configurations (open, closed, unbounded, singleton, empty, equal, aliased) for rational, integer and double intervals; for each pair 21 operations and predicates (neg, add, sub, mul, div, join, intersect, difference, refinement by a relation, aliased calls, contains / strictly_contains / disjoint / equal / bounded / singleton) are validated: exact bound types must reproduce the definitional result exactly (bounds, openness, infinities, emptiness), inexact ones must enclose it.",
+   note="Trusted: TLC, BigInt.tla. Not covered: interval linear forms, linearization of floating-point expressions, wrap_assign of intervals (C17), float/long double interval types other than double.", ref="§5 C12")
 NOT_YET = {}
 
 
